@@ -107,17 +107,29 @@ def _run_case(m, rr, stale_f, CallC, LitC, RegC, RegValC, engine_names, pruner_n
                 for attr, init in v[node].attrs.items():
                     if init is False or init is None:
                         cells.append((v, attr, init))
+            elif isinstance(v, dict) and v and node in v and all(x is False or x is None for x in v.values()) and \
+                    all(isinstance(k2, Obj) for k2 in v):
+                cells.append((v, None, v[node]))  # the table holds the value itself
         stale_c = [c for c in cells if c[2] is False]
         time_c = [c for c in cells if c[2] is None]
         if len(stale_c) != 1 or len(time_c) != 1:
             raise AnalysisError("T1: cannot identify the per-node stale flag (initially False) and modified-time cell (initially None) in the stale check")
         (st_tbl, st_attr, _), (tm_tbl, tm_attr, _) = stale_c[0], time_c[0]
+
+        def put(tbl, attr, key, val):
+            if attr is None:
+                tbl[key] = val
+            else:
+                tbl[key].attrs[attr] = val
+
+        def get(tbl, attr, key):
+            return tbl[key] if attr is None else tbl[key].attrs[attr]
         for p, (ps, pt) in zip(preds, pstates):
-            st_tbl[p].attrs[st_attr] = ps
-            tm_tbl[p].attrs[tm_attr] = pt
+            put(st_tbl, st_attr, p, ps)
+            put(tm_tbl, tm_attr, p, pt)
         interp.call(fn, [node], {})
-        result["stale"] = st_tbl[node].attrs[st_attr]
-        result["time"] = tm_tbl[node].attrs[tm_attr]
+        result["stale"] = get(st_tbl, st_attr, node)
+        result["time"] = get(tm_tbl, tm_attr, node)
         return None
 
     stubs = {n: Stub(n, engine_stub) for n in engine_names}
@@ -204,8 +216,33 @@ def rule_owner_writes_only(ctx, rid, rr):
                                    "a worker writes only the entry of the node it processes" if ok else
                                    "a worker writes another node's entry in a shared table (data race with that node's own "
                                    "worker; pushes state to successors)", norm(node))
+                    elif isinstance(t, ast.Attribute) and isinstance(t.value, ast.Name) and t.value.id not in f.params:
+                        # a store through a local that holds an entry of a shared table: it must be the worker's own entry
+                        bs_l = [b for b in f.bindings.get(t.value.id, []) if b[0] == "assign" and b[1] is not None]
+                        ents = [b[1] for b in bs_l if isinstance(b[1], ast.Subscript) and isinstance(b[1].value, ast.Name)
+                                and m.binding_scope(f, b[1].value.id) is rr.stale]
+                        if ents and len(ents) == len(f.bindings.get(t.value.id, [])):
+                            n += 1
+                            ok = all(is_name(e_.slice, own) for e_ in ents)
+                            ctx.ob(rid, f"{f.short}/{ents[0].value.id}", ok, loc(f, node),
+                                   "a worker writes only the entry of the node it processes" if ok else
+                                   "a worker writes another node's entry in a shared table (data race with that node's own "
+                                   "worker; pushes state to successors)", norm(node))
                     elif isinstance(t, ast.Subscript) and isinstance(t.value, ast.Name) and m.binding_scope(f, t.value.id) is rr.stale:
-                        ctx.ob(rid, f"{f.short}/{t.value.id}", False, loc(f, node), "shared table restructured from a worker", norm(node))
+                        # rebinding the value of the worker's OWN key is an owner write as well (the key exists if the table was
+                        # pre-filled for every node - checked next); any other key is another node's entry
+                        tbl = t.value.id
+                        n += 1
+                        ok = is_name(t.slice, own)
+                        if ok:
+                            bs_ = [b for b in rr.stale.bindings.get(tbl, []) if b[0] == "assign"]
+                            pre = len(bs_) == 1 and bs_[0][1] is not None and (
+                                (isinstance(bs_[0][1], ast.DictComp) and "nodes" in norm(bs_[0][1].generators[0].iter)) or
+                                (isinstance(bs_[0][1], ast.Call) and norm(bs_[0][1].func) == "dict.fromkeys" and bs_[0][1].args and "nodes" in norm(bs_[0][1].args[0])))
+                            ok = bool(pre)
+                        ctx.ob(rid, f"{f.short}/{tbl}", ok, loc(f, node),
+                               "a worker rebinds only the entry of the node it processes, in a table pre-filled for every node" if ok else
+                               "shared table restructured from a worker", norm(node))
         # reads of other entries only for predecessors
         for node in f.own_nodes():
             if isinstance(node, ast.Subscript) and isinstance(node.value, ast.Name) and isinstance(node.ctx, ast.Load) \
@@ -228,7 +265,7 @@ def rule_owner_writes_only(ctx, rid, rr):
                 ctx.ob(rid, f"{f.short}/{node.value.id}-read", ok, loc(f, node),
                        "other entries are read only for predecessors (ordered before by the engine)" if ok else
                        "reads the entry of a node that is not a predecessor (unordered with its writer)", norm(node))
-    ctx.floor(rid, "writes to the shared stale/time tables", n, 4)
+    ctx.floor(rid, "writes to the shared stale/time tables", n, 2)
 
 
 # ------------------------------------------------------------------------------------------------ T4 / W3
